@@ -1,24 +1,26 @@
 ------------------------------- MODULE Grammar -------------------------------
 (* C15 - gemseo grammars (core/grammars/base_grammar.py, json_grammar.py,       *)
-(* simple_grammar.py, required_names.py, defaults.py).                          *)
+(* simple_grammar.py, pydantic_grammar.py, required_names.py, defaults.py).     *)
 (*                                                                              *)
-(* A grammar is a finite map  name -> type  (its elements), a subset of       *)
-(* required names, a partial map of defaults and two namespace maps.  Every *)
-(* public edit operation is one action.  A type is a non-empty set of atoms   *)
-(* (a merged element allows any of its atoms).  What a value "is" is abstracted *)
-(* to a kind (python int, float, ndarray of floats, list of ints, ...); the   *)
-(* harness owns one concrete representative per kind and nothing else.          *)
+(* A grammar is a finite map  name -> type  (its elements), a subset of         *)
+(* required names, a partial map of defaults and two namespace maps.  Every     *)
+(* public edit operation is one action; read-only queries are actions that      *)
+(* leave the grammar unchanged.  A type is a non-empty set of atoms (a merged   *)
+(* element allows any of its atoms).  What a value "is" is abstracted to a kind *)
+(* (python int, float, ndarray of floats, list of ints, ...); the harness owns  *)
+(* one concrete representative per kind and nothing else.                       *)
 (*                                                                              *)
 (* HasType is per grammar class (DESIGN C15):                                   *)
-(*   json   : JSON-schema typing after gemseo's documented cast (ndarray, list, *)
-(*            tuple -> array; complex -> its real part; bool is not an integer; *)
-(*            an integer is a number)                                           *)
-(*   simple : python isinstance against the declared type                       *)
+(*   json     : JSON-schema typing after gemseo's documented cast (ndarray,     *)
+(*              list, tuple -> array; complex -> its real part; bool is not an  *)
+(*              integer; an integer is a number)                                *)
+(*   simple   : python isinstance against the declared type                     *)
+(*   pydantic : strict pydantic validation of the annotation                    *)
 (* NSlots = 2 adds a second grammar object created by Copy; the two objects are *)
 (* independent values here (that is the meaning of "copy").                     *)
 EXTENDS Naturals, FiniteSets, Sequences, TLC
 
-CONSTANTS Class,      \* "json" | "simple"
+CONSTANTS Class,      \* "json" | "simple" | "pydantic" (the operations whose meaning pydantic grammars share)
           Names,      \* base element names (without namespace prefix)
           TAtoms,     \* atoms offered to UpdateFromTypes
           DKinds,     \* value kinds offered to UpdateFromData
@@ -80,7 +82,15 @@ SimpleAcc(a) ==
     [] a = "Any"    -> Kinds                  \* None
     [] OTHER        -> {}
 
-Acc(a) == IF Class = "json" THEN JsonAcc(a) ELSE SimpleAcc(a)
+PydanticAcc(a) ==                             \* strict pydantic validation of the annotation
+  CASE a = "Int"    -> {"int"}
+    [] a = "Num"    -> {"int", "float"}       \* strict float accepts an int
+    [] a = "Bool"   -> {"bool"}
+    [] a = "Str"    -> {"str"}
+    [] a = "Arr"    -> NDArrays               \* NDArrayPydantic
+    [] OTHER        -> {}
+
+Acc(a) == CASE Class = "json" -> JsonAcc(a) [] Class = "simple" -> SimpleAcc(a) [] Class = "pydantic" -> PydanticAcc(a)
 HasType(k, T) == \E a \in T : k \in Acc(a)
 
 NamesType == IF Class = "json" THEN {"ArrNum"} ELSE {"Arr"}   \* update_from_names: NumPy arrays
@@ -112,7 +122,8 @@ Empty == [live |-> FALSE, elems |-> <<>>, req |-> {}, dflt |-> <<>>, toNs |-> <<
 Fresh == [Empty EXCEPT !.live = TRUE]
 
 Cold == [val |-> FALSE, sch |-> FALSE]
-Cached == Class = "json"       \* only JSON grammars build views lazily
+Cached == Class # "simple"     \* JSON and pydantic grammars build their validator lazily
+IsJson == Class = "json"
 
 Init == /\ g = [s \in Slots |-> IF s = 1 THEN Fresh ELSE Empty]
         /\ q = [s \in Slots |-> Cold]
@@ -127,7 +138,7 @@ Same == UNCHANGED <<g, q>> /\ Step                                              
 On(op, s) == op \in Ops /\ s \in Slots /\ Live(s)
 Put(G, n, T, m) == IF m /\ n \in DOMAIN G.elems THEN G.elems[n] \cup T ELSE T
 Mergeable(G, n, T, m) == (m /\ n \in DOMAIN G.elems) => MergeOK(G.elems[n], T)
-MergeArg(G, S, m) == m => (Class = "json" /\ S \cap DOMAIN G.elems # {})
+MergeArg(G, S, m) == m => (Class # "simple" /\ S \cap DOMAIN G.elems # {})
 
 (* update_from_names(names, merge): the elements are NumPy arrays and become required *)
 UpdateFromNames(s, S, m) ==
@@ -227,7 +238,7 @@ Copy == /\ "Copy" \in Ops /\ NSlots >= 2 /\ Live(1)
 
 (* pickle round trip: the same grammar *)
 Pickle(s) == /\ On("Pickle", s) /\ UNCHANGED g /\ Step
-             /\ q' = [q EXCEPT ![s] = IF Cached THEN [val |-> FALSE, sch |-> TRUE] ELSE Cold]
+             /\ q' = [q EXCEPT ![s] = IF IsJson THEN [val |-> FALSE, sch |-> TRUE] ELSE Cold]
 
 SetDefault(s, n, v) ==
   /\ On("SetDefault", s) /\ n \in Dom(s) /\ v \in DefaultValues
@@ -257,10 +268,10 @@ RejectRequire(s, n) ==
 
 (* read-only queries: the grammar is unchanged *)
 Query(op, s) == op \in Ops /\ s \in Slots /\ Live(s) /\ UNCHANGED <<g, h>>
-Validate(s) == Query("Validate", s) /\ q' = [q EXCEPT ![s] = IF Cached THEN [val |-> TRUE, sch |-> TRUE] ELSE Cold]
-Schema(s)    == Query("Schema", s) /\ Cached /\ q' = [q EXCEPT ![s].sch = TRUE]
-ToJson(s)    == Query("ToJson", s) /\ Cached /\ UNCHANGED q
-ToSimple(s)  == Query("ToSimple", s) /\ Cached /\ UNCHANGED q
+Validate(s) == Query("Validate", s) /\ q' = [q EXCEPT ![s] = IF Cached THEN [val |-> TRUE, sch |-> IsJson] ELSE Cold]
+Schema(s)    == Query("Schema", s) /\ IsJson /\ q' = [q EXCEPT ![s].sch = TRUE]
+ToJson(s)    == Query("ToJson", s) /\ IsJson /\ UNCHANGED q
+ToSimple(s)  == Query("ToSimple", s) /\ IsJson /\ UNCHANGED q
 Repr(s)      == Query("Repr", s) /\ UNCHANGED q
 
 Next ==
@@ -295,6 +306,7 @@ TypeOK == \A s \in Slots : LET G == g[s] IN
   /\ \A n \in DOMAIN G.dflt : G.dflt[n] \in DefaultValues
   /\ (~G.live => G = Empty)
   /\ h \in 0..MaxDepth
+  /\ q[s] \in [val : BOOLEAN, sch : BOOLEAN]
 
 (* required names and defaults only refer to existing elements; the namespace maps are mutually       *)
 (* inverse on the existing names                                                                       *)
@@ -312,6 +324,14 @@ WellFormed == \A s \in Slots : WellFormedG(g[s])
 Accepts(G, d) ==
   /\ G.req \subseteq DOMAIN d
   /\ \A n \in DOMAIN d \cap DOMAIN G.elems : HasType(d[n], G.elems[n])
+
+(* read-only queries never change the grammar; rejected operations neither *)
+QueriesPure == [][(\E s \in Slots : Validate(s) \/ Schema(s) \/ ToJson(s) \/ ToSimple(s) \/ Repr(s)
+                                   \/ \E n \in Names : RejectMerge(s, n) \/ RejectRestrict(s, n) \/ RejectDelete(s, n)
+                                                       \/ RejectDefault(s, n) \/ RejectRequire(s, n))
+                   => UNCHANGED g]_vars
+(* a copy is equal to its original and a pickle round trip is the identity *)
+CopyEqual == [][Copy => g'[2] = g[1] /\ g'[1] = g[1]]_vars
 
 (* the exported JSON schema (to_json / schema / to_file) *)
 Export(G) == [properties |-> G.elems, required |-> G.req]
